@@ -443,6 +443,73 @@ pub fn cases(thorough: bool) -> Vec<Case> {
         let form = instantiate(t, a, 0, None, None);
         out.push(Case { forms: vec![form], tags: vec![format!("form={}", fam), "probe-after-each-rejected-form=1200".into()] });
     }
+    // scale ladders: every derived form at every width N (bindings, clauses, data, operands, body
+    // forms) and nesting depth D - a fast path for short forms or a bounded table shows here
+    let width = if thorough { 300 } else { 120 };
+    for n in 1..=width {
+        let mid = (n + 1) / 2;
+        let tk = |i: usize, v: &str| format!("(tick {} {})", i, v);
+        let seq = |f: &dyn Fn(usize) -> String| (1..=n).map(|i| f(i)).collect::<Vec<_>>().join(" ");
+        let mut texts: Vec<(&str, String)> = vec![];
+        texts.push(("let", format!("(let ({}) (list v1 v{} v{}))", seq(&|i| format!("(v{} {})", i, tk(i, &i.to_string()))), mid, n)));
+        texts.push(("let*", format!("(let* ((v1 (tick 1 1)) {}) (list v1 v{} v{}))", (2..=n).map(|i| format!("(v{} (tick {} (- v{} -1)))", i, i, i - 1)).collect::<Vec<_>>().join(" "), mid, n)));
+        texts.push(("let*", format!("(let* ((x 0) {}) x)", seq(&|i| format!("(x (tick {} (- x -1)))", i)))));
+        texts.push(("cond", format!("(cond {} (else 'none))", seq(&|i| format!("({} 'c{})", tk(i, if i == n { "#t" } else { "#f" }), i)))));
+        texts.push(("cond", format!("(cond {} (else (tick 999 'none)))", seq(&|i| format!("({} 'c{})", tk(i, "#f"), i)))));
+        texts.push(("cond", format!("(cond {} (else 'none))", seq(&|i| if i == n { format!("({} => (lambda (x) (list x 'arrow)))", tk(i, &i.to_string())) } else { format!("({})", tk(i, "#f")) }))));
+        texts.push(("case", format!("(case (tick 0 {}) {} (else 'none))", n, seq(&|i| format!("(({}) 'c{})", i, i)))));
+        texts.push(("case", format!("(case (tick 0 {}) {} (else 'none))", n + 1, seq(&|i| format!("(({}) 'c{})", i, i)))));
+        texts.push(("case", format!("(case (tick 0 {}) (({}) 'hit) (else 'none))", n, seq(&|i| i.to_string()))));
+        texts.push(("case", format!("(case (tick 0 {}) (({}) 'hit) (else 'none))", n + 1, seq(&|i| i.to_string()))));
+        texts.push(("and", format!("(and {})", seq(&|i| tk(i, &i.to_string())))));
+        texts.push(("and", format!("(and {})", seq(&|i| tk(i, if i == mid { "#f" } else { "1" })))));
+        texts.push(("or", format!("(or {})", seq(&|i| tk(i, if i == n { "7" } else { "#f" })))));
+        texts.push(("or", format!("(or {})", seq(&|i| tk(i, "#f")))));
+        texts.push(("begin", format!("(begin {})", seq(&|i| tk(i, &i.to_string())))));
+        texts.push(("when", format!("(when (tick 0 #t) {})", seq(&|i| tk(i, &i.to_string())))));
+        texts.push(("unless", format!("(unless (tick 0 #f) {})", seq(&|i| tk(i, &i.to_string())))));
+        texts.push(("let", format!("(let ((a 1)) {} a)", seq(&|i| format!("(set! a {})", tk(i, "(- a -1)"))))));
+        for (fam, text) in texts {
+            let form = parse1(&text);
+            for (cname, forms) in contexts(&form) {
+                if cname != "top-level" && n % 4 != 0 {
+                    continue;
+                }
+                out.push(Case { forms, tags: vec![format!("form={}", fam), format!("ctx={}", cname), "scale-width".into()] });
+            }
+        }
+        if n <= 60 {
+            let nest = |open: &dyn Fn(usize) -> String, core: &str, close: &str| {
+                let mut s = String::new();
+                for i in 1..=n {
+                    s.push_str(&open(i));
+                }
+                s.push_str(core);
+                for _ in 0..n {
+                    s.push_str(close);
+                }
+                s
+            };
+            let deep: Vec<(&str, String)> = vec![
+                ("let", nest(&|i| format!("(let ((a{} {})) ", i, tk(i, &i.to_string())), &format!("(list a1 a{} a{})", mid, n), ")")),
+                ("let", format!("(let ((a 0)) {})", nest(&|i| format!("(let ((a {})) ", tk(i, "(- a -1)")), "a", ")"))),
+                ("let*", nest(&|i| format!("(let* ((b{} {}) (c{} b{})) ", i, tk(i, &i.to_string()), i, i), &format!("(list c1 c{})", n), ")")),
+                ("begin", nest(&|i| format!("(begin {} ", tk(i, "0")), "'in", ")")),
+                ("when", nest(&|i| format!("(when {} ", tk(i, "#t")), "'in", ")")),
+                ("unless", nest(&|i| format!("(unless {} ", tk(i, "#f")), "'in", ")")),
+                ("cond", nest(&|i| format!("(cond ({} 'no) (else ", tk(i, "#f")), "'in", "))")),
+                ("case", nest(&|i| format!("(case {} ((0) 'no) (else ", tk(i, "1")), "'in", "))")),
+                ("and", nest(&|i| format!("(and {} ", tk(i, "1")), "'in", ")")),
+                ("or", nest(&|i| format!("(or {} ", tk(i, "#f")), "'in", ")")),
+            ];
+            for (fam, text) in deep {
+                let form = parse1(&text);
+                for (cname, forms) in contexts(&form) {
+                    out.push(Case { forms, tags: vec![format!("form={}", fam), format!("ctx={}", cname), "scale-depth".into()] });
+                }
+            }
+        }
+    }
     // top-level begin containing definitions, then a reference from the next form
     for t in ["(begin (define z (tick 1 1)) (tick 2 z))", "(begin (define (zf a) (list a)) (tick 1 0))"] {
         let first = parse1(t);
